@@ -20,12 +20,12 @@ RULE = ('scenarios: kind {file, tree, symlink} x route {home cold, home warm, .T
         'non-trivial = the fault was delivered and changed the trace; distinct = (route, faulted op(s), errno(s), outcome)')
 LEVEL2_SCOPE = {'quick': 'second fault on mutating operations with errno in {EACCES, ENOSPC, EIO} for 4 scenarios (file/home-cold, file/fallback, tree/.Trash-uid, link/.Trash/uid)',
                 'thorough': 'all operations x all applicable errnos for (file|tree, home-cold|fallback); quick scope for the other scenarios'}
-ROUTES = ['home-cold', 'home-warm', 'top', 'alt', 'fallback', 'home-info-file']
+ROUTES = ['home-cold', 'home-warm', 'top', 'alt', 'fallback', 'home-info-file', 'home-info-missing']
 KINDS = ['file', 'tree', 'ldir']
 
 
 def dimensions(tier):
-    return {'kinds': 3, 'routes': 6, 'errno_table_size': sum(len(v) for v in faults.ERRNOS.values())}
+    return {'kinds': 3, 'routes': 7, 'errno_table_size': sum(len(v) for v in faults.ERRNOS.values())}
 
 
 def scenarios(tier):
@@ -46,7 +46,7 @@ def level2_filter(tier, scn, op, errno, mut):
 def _layout(s):
     route = s['route']
     B = '/home/u/w' if route.startswith('home') else '/mnt/v1/w'
-    td = {'home-cold': scen.HOME_TRASH, 'home-warm': scen.HOME_TRASH, 'top': '/mnt/v1/.Trash/0', 'alt': '/mnt/v1/.Trash-0', 'fallback': scen.HOME_TRASH, 'home-info-file': scen.HOME_TRASH}[route]
+    td = {'home-cold': scen.HOME_TRASH, 'home-warm': scen.HOME_TRASH, 'top': '/mnt/v1/.Trash/0', 'alt': '/mnt/v1/.Trash-0', 'fallback': scen.HOME_TRASH, 'home-info-file': scen.HOME_TRASH, 'home-info-missing': scen.HOME_TRASH}[route]
     return B, td
 
 
@@ -59,6 +59,8 @@ def make_world(s):
         W.dir('/mnt/v1/.Trash', mode=0o1777)
     if s['route'] == 'fallback':
         W.file('/mnt/v1/.Trash', 'blocked').file('/mnt/v1/.Trash-0', 'blocked')
+    if s['route'] == 'home-info-missing':
+        W.dir(td, mode=0o700).dir(td + '/files', mode=0o700)          # left by a run that failed between the two mkdirs
     if s['route'] == 'home-info-file':
         W.dir(td, mode=0o700).dir(td + '/files', mode=0o700).file(td + '/info', 'not a directory\n')
     if s['route'] == 'home-warm':
@@ -154,6 +156,15 @@ def oracle(s, start, after, r, flts):
     changed_old = [p for p in start if (p.startswith(td + '/files/') or p.startswith(td + '/info/')) and start[p] != after.get(p) and start[p][0] != 'd']
     if changed_old:
         return viol('pre-existing-pair-changed')
+    if cl['state'] == 'TRASHED':
+        # C03/C07 form rule also after a fall-through: absolute Path in the home trash, relative in a $topdir trash dir of a real volume
+        tdx, nmx = cl['pair']
+        from ..ref import trashinfo as R1
+        praw = R1.parse(scen.info_of(after, tdx, nmx))['path_raw']
+        if tdx == scen.HOME_TRASH and not praw.startswith(b'/'):
+            return viol('relative-Path-written-in-the-home-trash')
+        if tdx.startswith('/mnt/v1/') and praw.startswith(b'/'):
+            return viol('absolute-Path-written-in-a-volume-trash-dir')
     if (r.exit == 0) != (cl['state'] == 'TRASHED'):
         return viol('exit-status-lies(exit=%s,state=%s)' % ('0' if r.exit == 0 else 'nonzero', cl['state']))
     return {'verdict': 'ok', 'klass': '%s(%s)' % (cl['state'], 'exit0' if r.exit == 0 else 'nz'), 'nontrivial': nt, 'detail': detail}
